@@ -622,7 +622,7 @@ fn enum_space() -> &'static EnumSpace {
                 Some(v) => format!("{}@{}", p.name, v),
                 None => p.name.to_string(),
             };
-            let is_pkg = p.exports.iter().any(|e| e.ends_with("-world"));
+            let is_pkg = !p.is_component;
             let source = if is_pkg {
                 format!("package test:e;\nimport i: {r_first};\n", r_first = format!("{}/{}", p.name, p.exports[0]) + &p.version.map(|v| format!("@{v}")).unwrap_or_default())
             } else {
@@ -743,7 +743,7 @@ fn finish(run: &mut Run, out: Result<ProcExit<Findings>, String>) {
         Ok(ProcExit::Panic(p)) => {
             run.cover("panic_sites", p.location.clone());
             run.violate(
-                format!("panic@{}", p.location),
+                p.class(),
                 format!("the front end panicked at {}: {}", p.location, p.message),
             );
         }
